@@ -46,6 +46,9 @@ FINDING_REPLAYS = [
      {"ELK_INIT_VALUE_STACK_SIZE": "96"}),
 ]
 KNOBS = dict(closures=True, closure_bias=0.3, defs=3, max_depth=2, block_len=(2, 5), deep_rec=60)
+# bodies that are also run as generators / async functions (C15's transformation): their saved stack
+# segments are copied back into a stack that has been reallocated in the meantime
+KNOBS_W = dict(closures=True, closure_bias=0.1, defs=2, max_depth=2, block_len=(1, 4), deep_rec=60, wrap_target=True)
 EXEMPT = ("call stack overflow", "maximum value stack size exceeded", "stack overflow")
 
 
@@ -81,12 +84,36 @@ def run(ctx):
             progs.append(g.program())
             for f in g.features:
                 ctx.stat("feature:" + f)
+    wprogs = []
+    if not ctx.replay:
+        for i in range(ctx.n(40, 600)):
+            g = mini_gen.Gen(ctx.rng, mini_gen.Knobs(**KNOBS_W), modname=f"W{ctx.seed}x{i}")
+            wprogs.append(g.program())
     # default configuration against the reference first
-    recs = mini_common.compare_programs(ctx, progs, "default configuration vs reference")
+    recs = mini_common.compare_programs(ctx, progs + wprogs, "default configuration vs reference")
     if not ctx.replay:
         replay_findings(ctx)
     base = {r["sexpr"]: (r["real"], r["real_out"]) for r in recs}
     srcs = {r["sexpr"]: r["src"] for r in recs}
+    # generator / async variants of the wrapped bodies: extra (pseudo-)programs keyed by their source
+    from checks import c15
+    import re as _re
+    variants = []
+    for r in recs[len(progs):]:
+        if r["model"].startswith("stuck") or r["model"] == "timeout":
+            continue
+        v = c15.variants(r["src"])
+        if v is None:
+            continue
+        m = _re.match(r"module (\w+)", r["src"])
+        for suffix, text in (("G", v[0]), ("A", v[1])):
+            variants.append(_re.sub(r"\b%s\b" % m.group(1), m.group(1) + suffix, text) if m else text)
+    vres = vlib.run_programs([{"id": f"v{i}", "src": t, "timeout_ms": 8000} for i, t in enumerate(variants)])
+    for t, a in zip(variants, vres):
+        key = "VARIANT:" + t
+        progs.append(key)
+        srcs[key] = t
+        base[key] = canon(a)
     for cfg in configs:
         reqs = [{"id": f"c{i}", "src": srcs[p], "timeout_ms": 8000} for i, p in enumerate(progs)]
         res = vlib.run_programs(reqs, extra_env=cfg)
@@ -109,6 +136,14 @@ def run(ctx):
                 d = vlib.run_programs([{"id": f"d{i}", "src": m[0], "timeout_ms": 3000} for i, m in enumerate(ms)])
                 c = vlib.run_programs([{"id": f"e{i}", "src": m[0], "timeout_ms": 3000} for i, m in enumerate(ms)], extra_env=cfg)
                 return [canon(x) != canon(y) and not any(e in canon(y)[0] for e in EXEMPT) for x, y in zip(d, c)]
+            if p.startswith("VARIANT:"):
+                new = ctx.violation("config-changes-result", {"program": srcs[p], "config": cfg},
+                                    f"default: {base[p]}; under {cfg}: {got}")
+                if new:
+                    ok = False
+                else:
+                    reported -= 1
+                continue
             small = mini_common.shrink_program(p, uniq_wrap(fails_batch))
             m = mini_common.model_eval([small])[0]
             d = vlib.run_programs([{"id": "d", "src": m[0]}])[0]
